@@ -24,9 +24,9 @@ func init() {
 		Doc: "trees order newest first; iteration, trim and eviction ends agree", Run: runOrdDesc})
 	reg(&core.RuleInfo{Name: "TOPK-BND", Props: []string{"C03"}, Engine: "INT", Floor: 1, Confirmed: 1,
 		Doc: "the index path trims on cnt > limit from the oldest end", Run: runTopkBnd})
-	reg(&core.RuleInfo{Name: "SCAN-LIMIT", Props: []string{"C03"}, Engine: "CFG", Floor: 1, Confirmed: 1,
+	reg(&core.RuleInfo{Name: "SCAN-LIMIT", Props: []string{"C03", "C16"}, Engine: "CFG", Floor: 1, Confirmed: 1,
 		Doc: "the scan path consults Done before and counts with LimitMatch", Run: runScanLimit})
-	reg(&core.RuleInfo{Name: "SCAN-FULL", Props: []string{"C03"}, Engine: "CFG", Floor: 1, Confirmed: 1,
+	reg(&core.RuleInfo{Name: "SCAN-FULL", Props: []string{"C03", "C16"}, Engine: "CFG", Floor: 1, Confirmed: 1,
 		Doc: "the retained-set tree is only ever walked from its newest end: no seek can skip a matching event", Run: runScanFull})
 	reg(&core.RuleInfo{Name: "IDX-INTERSECT", Props: []string{"C03"}, Engine: "CFG", Floor: 2, Confirmed: 3,
 		Doc: "index keys: union within a condition, intersection across conditions, residual since/until match", Run: runIdxIntersect})
@@ -355,10 +355,18 @@ func runIdxScan(c *core.Ctx) {
 	for _, p := range paths {
 		hasEmpty := false
 		for _, cd := range p.Conds {
-			note(cd, nil, 0)
 			if emptyKeyList(cd) {
 				hasEmpty = true
 			}
+		}
+		// (a path that found the list of key groups empty falls back to the scan whatever fields it saw
+		// present before — an empty Tags map, say: the scan path is the specification, so that is safe)
+		before := allNil
+		for _, cd := range p.Conds {
+			note(cd, nil, 0)
+		}
+		if hasEmpty {
+			allNil = before
 		}
 		if !hasEmpty {
 			allEmptyKeys = false
@@ -536,7 +544,7 @@ func runTopkBnd(c *core.Ctx) {
 		}
 		if (isCounter(an.Unwrap(x)) || sizeOfResult) && strings.Contains(lim, ".Limit") {
 			detail = fmt.Sprintf("trim when count %s limit (limit ← %s)", op, clip(lim, 70))
-			okGuard = op == token.GTR && strings.Contains(lim, "min(")
+			okGuard = op == token.GTR && (strings.Contains(lim, "min(") || condMin(find, an.Unwrap(y)))
 		}
 	}
 	c.Check(okGuard && okVictim, nil, fname(c, find), "trim", P.Pos(del.Pos()), detail+"; the removed key is Reverse().Key() (oldest)",
@@ -1017,4 +1025,76 @@ func indexLoopCovers(h *ssa.BasicBlock, iff *ssa.If, ia *ssa.IndexAddr) (bool, s
 		}
 	}
 	return false, ""
+}
+
+// condMin: v is min(candidates, *Limit) written as a conditional assignment
+// (`limit := len(cands); if filter.Limit != nil && *filter.Limit < int64(limit) { limit = int(max(*filter.Limit, 0)) }`):
+// a two-way phi of the candidate count and the filter's limit (possibly clamped at 0 from below),
+// the limit taken on the edge guarded by `*Limit < count`.
+func condMin(fn *ssa.Function, v ssa.Value) bool {
+	ph, ok := v.(*ssa.Phi)
+	if !ok || len(ph.Edges) < 2 {
+		return false
+	}
+	for i, e := range ph.Edges {
+		ep := an.PathOf(e)
+		if !strings.Contains(ep, ".Limit") {
+			continue
+		}
+		// every other edge (the short-circuit `Limit != nil && …` has two) carries the candidate count
+		var other ssa.Value
+		same := true
+		for j, e2 := range ph.Edges {
+			if j == i {
+				continue
+			}
+			if other == nil {
+				other = e2
+			} else if e2 != other {
+				same = false
+			}
+		}
+		if !same || other == nil || strings.Contains(an.PathOf(other), ".Limit") {
+			continue
+		}
+		// the limit itself, converted, at most clamped from below by a constant ≤ 0 … (a larger
+		// floor would return more than the limit)
+		if strings.Contains(ep, "max(") {
+			okFloor := false
+			var inner ssa.Value = e
+			if cv, isCv := inner.(*ssa.Convert); isCv {
+				inner = cv.X
+			}
+			{
+				if call, isCall := inner.(*ssa.Call); isCall {
+					if b, isB := call.Call.Value.(*ssa.Builtin); isB && b.Name() == "max" && len(call.Call.Args) == 2 {
+						for _, a := range call.Call.Args {
+							if k, isK := an.ConstInt(a); isK && k <= 0 {
+								okFloor = true
+							}
+						}
+					}
+				}
+			}
+			if !okFloor {
+				return false
+			}
+		}
+		// … on the edge where it is smaller than the candidate count
+		pred := ph.Block().Preds[i]
+		for _, g := range append(an.Guards(fn, pred), an.Guards(fn, ph.Block())...) {
+			b, isBin := g.V.(*ssa.BinOp)
+			if !isBin || !g.True {
+				continue
+			}
+			x, y, op := b.X, b.Y, b.Op
+			if op == token.GTR {
+				x, y, op = y, x, token.LSS
+			}
+			if op == token.LSS && strings.Contains(an.PathOf(x), ".Limit") && strings.Contains(an.PathOf(y), an.PathOf(other)) {
+				return true
+			}
+		}
+	}
+	return false
 }
